@@ -345,7 +345,8 @@ func vfH_C02_update_check() {
 		for i := 0; i < k.snd_buf.Len(); i++ {
 			s := vfRingAt(k.snd_buf, i)
 			d := _itimediff(s.resendts, now)
-			vfAssert("check/not-later-than-a-retransmission-timer", vfImplies(d >= 0, wait <= d))
+			// a segment that was never transmitted has no timer yet (it goes out with the next tick)
+			vfAssert("check/not-later-than-a-retransmission-timer", vfImplies(vfAnd(s.xmit > 0, d >= 0), wait <= d))
 		}
 	}
 	tick0, upd0 := k.ts_flush, k.updated
